@@ -48,7 +48,15 @@ impl Macro for LiftIo {
             let module = &mut args[1];
             env.run_once(&mut Symbols::new(), arena, module).await;
 
-            let typ = module.env_type_of(&EmptyEnv::default());
+            let typ = match module.try_type_of(&EmptyEnv::default()) {
+                Ok(typ) => typ,
+                Err(err) => {
+                    return Err(macros::Error::message(format!(
+                        "Unable to determine the type of the second argument to `lift_io!`: {}",
+                        err
+                    )));
+                }
+            };
 
             match *typ {
                 Type::Record(_) => (),
